@@ -37,6 +37,12 @@ int redirect_parent(int *child, REPROC_STREAM stream)
     return errno == EBADF ? -EPIPE : -errno;
   }
 
+  // `fileno` does not fail when the underlying file descriptor of a standard
+  // stream is closed so we check for that ourselves.
+  if (fcntl(r, F_GETFD) < 0) {
+    return errno == EBADF ? -EPIPE : -errno;
+  }
+
   *child = r; // `r` contains the duplicated file descriptor.
 
   return 0;
